@@ -170,7 +170,8 @@ func (q *Seq) Exec(op SOp) bool {
 		// must be answered with its own ERROR - or, if the session's queue
 		// was full at that moment, not at all (the router reports that) -
 		// and none may have any effect (the model does not change).
-		if q.Authz == nil || (s.Local && !q.LocalAuthz) {
+		az, azLocal := q.authzOf(r)
+		if az == nil || (s.Local && !azLocal) {
 			return false
 		}
 		authid := q.MS[idx].Details["authid"]
@@ -191,7 +192,7 @@ func (q *Seq) Exec(op SOp) bool {
 			default:
 				msg = &wamp.Call{Options: wamp.Dict{}, Procedure: u, Arguments: wamp.List{"burst"}}
 			}
-			dec := q.Authz.Decide(authid, msg)
+			dec := az.Decide(authid, msg)
 			if dec != authzDeny && dec != authzFail {
 				continue
 			}
@@ -474,6 +475,11 @@ func (q *Seq) Exec(op SOp) bool {
 		}
 	case "leave":
 		var exp []Exp
+		if az, azLocal := q.authzOf(r); op.How == 2 && az != nil && (!s.Local || azLocal) {
+			// whether an Authorizer is asked about a message no client may send, before the
+			// session is aborted for sending it, is not specified: lose the transport instead
+			op.How = 1
+		}
 		switch op.How {
 		case 0:
 			s.Send(&wamp.Goodbye{Reason: wamp.CloseRealm, Details: wamp.Dict{}})
@@ -514,10 +520,18 @@ func (q *Seq) Exec(op SOp) bool {
 // a message the Authorizer refuses (or fails on) must only produce the ERROR;
 // proceed=false then. An allowed message continues in the form the
 // Authorizer left it (the caller reads the fields back from msg).
+// authzOf: the Authorizer configured for r's realm.
+func (q *Seq) authzOf(r *SeqRealm) (*TableAuthz, bool) {
+	if r.M.Authz != nil {
+		return r.M.Authz, r.M.LocalAuthz
+	}
+	return q.Authz, q.LocalAuthz
+}
+
 func (q *Seq) sendGated(s *Sess, idx int, r *SeqRealm, what string, msg wamp.Message) bool {
 	dec := authzAllow
-	if q.Authz != nil && (!s.Local || q.LocalAuthz) {
-		dec = q.Authz.Decide(q.MS[idx].Details["authid"], msg)
+	if az, azLocal := q.authzOf(r); az != nil && (!s.Local || azLocal) {
+		dec = az.Decide(q.MS[idx].Details["authid"], msg)
 	}
 	if !s.Send(msg) {
 		q.C.Violf("step %d (%s): router did not take the message", q.Step, what)
@@ -631,7 +645,7 @@ func (q *Seq) execJoin(op SOp) bool {
 	q.MS = append(q.MS, ms)
 	q.Settle()
 	q.Compare(r, op.String(), r.M.Join(ms), nil)
-	if !q.historyLearnt[realm] && q.Authz == nil {
+	if az, _ := q.authzOf(r); !q.historyLearnt[realm] && az == nil {
 		q.historyLearnt[realm] = true
 		q.LearnHistorySubs(op.Slot)
 	}
